@@ -17,7 +17,9 @@ PatSeq == <<<<0, 1, 2, 1, 3, 2, 0, 1, 1>>, <<2, 2, 0, 4, 1, 0, 3, 3, 2>>,
           <<0, 1, NaN, 1, 3, 2, 0, 1, 1>>, <<1, 0, 2, 1, 3, NaN, 0, 2, 1>>,
           <<NaN, 1, 2, 1, 0, 2, 4, 1, NaN>>, <<1, 3, 0, NaN, NaN, 2, 0, 1, 2>> >>
 ESeries == 1..7          \* index of the input series
-ESer(i) == IF i <= 6 THEN ESer1(PatSeq[i]) ELSE ESer2(<<0, 1, 2, 1, 3, 2, 0, 1, 1>>, <<1, 0, 2, NaN, 3, 2, 0, 2, 1>>)
+\* daily annualisation multiplies exponent differences by 365: steps of at most 2 keep 2^(365 j) inside double precision
+DailyPat == <<0, 1, 2, 2, 3, 4, NaN, 5, 6>>      \* (and non-decreasing: 100 (2^-365 - 1) is -100 in double precision)
+ESer(i) == IF i = 8 THEN ESer1(DailyPat) ELSE IF i <= 6 THEN ESer1(PatSeq[i]) ELSE ESer2(<<0, 1, 2, 1, 3, 2, 0, 1, 1>>, <<1, 0, 2, NaN, 3, 2, 0, 2, 1>>)
 
 Shifts(f) == {<<"k", CNeg1>>, <<"k", CNeg2>>, <<"k", CNeg4>>}
                 \cup (IF f = "I" THEN {} ELSE {<<"kw", "soy">>, <<"kw", "eopy">>, <<"kw", "tty">>})
@@ -26,6 +28,8 @@ ChangeScen == {[kind |-> "change", f |-> f, fn |-> fn, sh |-> sh, E |-> E, form 
                   f \in Freqs, fn \in {"diff", "diff_log", "pct", "roc"}, sh \in Shifts("Q") \cup Shifts("I"), E \in ESeries, fm \in {"method", "func"}}
 AChangeScen == {[kind |-> "change", f |-> f, fn |-> fn, sh |-> <<"k", CNeg1>>, E |-> E, form |-> fm] :
                   f \in Freqs \ {"D"}, fn \in {"adiff", "adiff_log", "apct", "aroc"}, E \in ESeries, fm \in {"method", "func"}}
+AChangeScenD == {[kind |-> "change", f |-> "D", fn |-> fn, sh |-> <<"k", CNeg1>>, E |-> 8, form |-> fm] :
+                  fn \in {"adiff", "adiff_log", "apct", "aroc"}, fm \in {"method", "func"}}
 CumScen == {[kind |-> "cum", f |-> f, fn |-> fn, k |-> k, dir |-> d, init |-> i, E |-> E, a |-> ab[1], b |-> ab[2], form |-> fm] :
                   f \in {"Q", "M", "I", "Y"}, fn \in {"diff", "diff_log", "pct", "roc"}, k \in {CNeg1, CNeg2, CNeg3, CNeg4}, d \in {"fwd", "bwd"},
                   i \in {"orig", "default"}, E \in ESeries, ab \in {<<1, 5>>, <<0, 3>>, <<2, 2>>, <<CNeg1, 4>>}, fm \in {"method", "func"}}
@@ -36,7 +40,7 @@ Uncanon(c) == IF c.start = None THEN Empty(c.nv)
 
 \* the documented default initial value of cum_diff_log is the level 0 (not representable as a power of two,
 \* and outside the statement, which speaks of the original series as initial condition)
-Init == /\ sc \in {s \in ChangeScen : s.sh \in Shifts(s.f)} \cup AChangeScen
+Init == /\ sc \in {s \in ChangeScen : s.sh \in Shifts(s.f)} \cup AChangeScen \cup AChangeScenD
                    \cup {s \in CumScen : ~(s.fn = "diff_log" /\ s.init = "default")}
         /\ out = <<>> /\ done = FALSE
 Compute == /\ ~done /\ done' = TRUE /\ UNCHANGED sc
